@@ -738,7 +738,7 @@ class Backend(abc.ABC):
             float: The probability this measurement occurred
         """
 
-        if desired_meas_result:
+        if desired_meas_result is not None:
             new_sv, prob = self.collapse_statevector_to_desired_measurement(statevector, qubit, int(desired_meas_result))
             return desired_meas_result, new_sv, prob
         else:
